@@ -32,7 +32,7 @@ KEYCELL = st.one_of(gen.keyish, gen.keyish, gen.keyish, gen.hvalue, st.lists(gen
 def join_case(draw, tier):
     maxrows = 6 if tier == "quick" else 14
     fn = draw(st.sampled_from(sorted(KINDS)))
-    keyform = draw(st.sampled_from(["key1", "key2", "lr1", "lr2", "natural1", "natural2", "key1-tuple"]))
+    keyform = draw(st.sampled_from(["key1", "key2", "lr1", "lr2", "natural1", "natural2", "key1-tuple", "index0", "lrindex0"]))
     nk = 2 if keyform.endswith("2") else 1
     lk = ["k", "j"][:nk]
     rk = ["k2", "j2"][:nk] if keyform.startswith("lr") else list(lk)
@@ -41,6 +41,10 @@ def join_case(draw, tier):
     rextra = draw(st.lists(st.sampled_from(rnames), max_size=2, unique=True))
     lh = draw(st.permutations(lk + lextra))
     rh = draw(st.permutations(rk + rextra))
+    if keyform in ("index0", "lrindex0"):
+        # the key given as the field INDEX 0 (a falsy but perfectly valid field selection): the key field comes first
+        lh = [lk[0]] + [f for f in lh if f != lk[0]]
+        rh = [rk[0]] + [f for f in rh if f != rk[0]]
     p = draw(gen.twinned_pool(KEYCELL, 2, 5, seq_twins=True))
     kc = st.sampled_from(p)
     vc = st.one_of(st.sampled_from(p), st.integers(0, 3))
@@ -50,7 +54,11 @@ def join_case(draw, tier):
     L = draw(gen.table(list(lh), [kc if f in lk else vc for f in lh], max_rows=0 if lempty else maxrows, ragged=ragged))
     Rt = draw(gen.table(list(rh), [kc if f in rk else vc for f in rh], max_rows=0 if rempty else maxrows, ragged=ragged))
     c = {"fn": fn, "left": L, "right": Rt, "keyform": keyform}
-    if keyform.startswith("key"):
+    if keyform == "index0":
+        c["key"] = 0
+    elif keyform == "lrindex0":
+        c["lkey"], c["rkey"] = 0, 0
+    elif keyform.startswith("key"):
         c["key"] = lk[0] if keyform == "key1" else tuple(lk)
     elif keyform.startswith("lr"):
         c["lkey"] = lk[0] if nk == 1 else tuple(lk)
